@@ -82,3 +82,37 @@ func ECHConfigListRaw(entries ...[]byte) []byte {
 	}
 	return append(be16(uint16(len(body))), body...)
 }
+
+// ECHUnusableConfig is a well-formed 0xfe0d ECHConfig a client has to skip (RFC 9849,
+// Section 4.1 / 6.1): kind 0 = a KEM the client does not implement, 1 = a mandatory
+// (high bit set) extension it does not know, 2 = no cipher suite it supports.  It names
+// its own public name, so that a client wrongly using it is visible in the outer SNI.
+func ECHUnusableConfig(kind int, configID uint8, publicName string) []byte {
+	kem, pub := uint16(0x0020), make([]byte, 32)
+	rand.Read(pub)
+	suites := append(be16(0x0001), be16(0x0001)...)
+	var exts []byte
+	switch kind % 3 {
+	case 0:
+		kem, pub = 0x0010, make([]byte, 65) // DHKEM(P-256): not implemented by the client
+		rand.Read(pub)
+		pub[0] = 4
+	case 1:
+		exts = append(append(be16(0xffce), be16(2)...), 0x01, 0x02)
+	case 2:
+		suites = append(be16(0x0003), be16(0x7f01)...) // HKDF-SHA512 with an unknown AEAD
+	}
+	var contents []byte
+	contents = append(contents, configID)
+	contents = append(contents, be16(kem)...)
+	contents = append(contents, be16(uint16(len(pub)))...)
+	contents = append(contents, pub...)
+	contents = append(contents, be16(uint16(len(suites)))...)
+	contents = append(contents, suites...)
+	contents = append(contents, 64)
+	contents = append(contents, byte(len(publicName)))
+	contents = append(contents, publicName...)
+	contents = append(contents, be16(uint16(len(exts)))...)
+	contents = append(contents, exts...)
+	return append(append(be16(0xfe0d), be16(uint16(len(contents)))...), contents...)
+}
